@@ -212,6 +212,9 @@ static size_t run_path(int k, const unsigned char* src, size_t n, unsigned char*
     ZSTD_DCtx* d; size_t r = 0; gbuf gws; int haveWs = 0; *stall = 0; *overcap = 0;
     if (k == 12) {      /* a static streaming decoder whose workspace ends at an inaccessible page */
         ZSTD_frameHeader fh; size_t w = 1 << 17, ws; if (ZSTD_getFrameHeader(&fh, src, n) == 0 && fh.windowSize >= 1024 && fh.windowSize <= ((size_t)1 << 27)) w = (size_t)fh.windowSize;
+        if (g_staticExact) { size_t at = 0; w = 1024;      /* several frames: the workspace is sized for the largest window among them */
+            while (at < n) { size_t fs = ZSTD_findFrameCompressedSize(src + at, n - at); if (ZSTD_isError(fs) || fs == 0) break;
+                if (ZSTD_getFrameHeader(&fh, src + at, n - at) == 0 && fh.frameType == ZSTD_frame && fh.windowSize > w && fh.windowSize <= ((size_t)1 << 27)) w = (size_t)fh.windowSize; at += fs; } }
         if (!g_staticExact) { unsigned m = seed % 5; w = m == 0 ? w : m == 1 ? (w * 8) / (9 + seed % 7) : m == 2 ? (size_t)1 << 17 : m == 3 ? 1024 : w / 2; if (w < 1024) w = 1024; }
         ws = ZSTD_estimateDStreamSize(w); ws = (ws + 7) & ~(size_t)7; gws = galloc(ws); haveWs = 1; d = ZSTD_initStaticDStream(gws.p, ws);
         if (!d) { gfree(&gws); return (size_t)-ZSTD_error_memory_allocation; } }
